@@ -452,8 +452,25 @@ def inline_stmt_calls(fn, F, depth=0):
                 params, cbody = ce
                 if not any(x.get("k") == "return" and x.get("e") is not None for x in walk(cbody)):
                     env = dict(zip(params, n.get("args", [])))
+                    # call by value: an argument that is a computation (`instance.mapping[parameter]`, a call) is
+                    # evaluated once and named by the parameter - a local of the spliced block - instead of being
+                    # repeated at every use of the parameter
+                    pre = []
+                    for pn, a in list(env.items()):
+                        core = a
+                        while isinstance(core, dict) and (core.get("k") in ("cast", "materialize", "paren", "defarg") or
+                                                          (core.get("k") == "construct" and len(core.get("args", [])) == 1)):
+                            core = core["e"] if core.get("k") != "construct" else core["args"][0]
+                        if isinstance(core, dict) and core.get("k") in ("call", "bin", "cond") and \
+                                not (core.get("k") == "call" and core.get("ck") == "member" and not core.get("args") and
+                                     core.get("name", "").startswith(("get_", "is_"))):
+                            vid = ("inl", id(n), pn)
+                            t_ = (a.get("t") or core.get("t") or "")
+                            pre.append({"k": "decl", "l": n.get("l"),
+                                        "vars": [{"name": pn, "id": vid, "t": t_, "ct": t_, "init": a}]})
+                            env[pn] = {"k": "ref", "name": pn, "dk": "local", "id": vid, "t": t_, "l": n.get("l")}
                     return {"k": "block", "l": n.get("l"), "inlined_from": short(n)[:40],
-                            "s": rec(subst(copy.deepcopy(cbody), env)).get("s", [])}
+                            "s": pre + rec(subst(copy.deepcopy(cbody), env)).get("s", [])}
                 # a bool lambda called for its effects only: its body with the returns dropped
                 env = dict(zip(params, n.get("args", [])))
                 body = subst(copy.deepcopy(cbody), env)
